@@ -2,4 +2,5 @@ import Cgm.Lemmas.AuditCmd
 import Cgm.E2E.C09
 import Cgm.E2E.C09b
 import Cgm.E2E.C09h
+import Cgm.E2E.C09i
 #audit_namespace Cg.E2E.C09
